@@ -36,7 +36,13 @@ TEMPLATES = [
     ("unicode", "caf\u00e9 \u0416 ${x} \u65e5\u672c\n", []),
     ("many-names", "${n1}${n2}${n3}${n4}${n5}${n6}${n7}${n8}${n9}${x}${y}\n" + '<%def name="d()">${n9}${n1}${n5}</%def>${d()}\n', ["d"]),
     ("filters", "${x | u}${y | h,trim}<%text>${raw}</%text>\n", []),
+    # two namespaces importing the same name: the later declaration wins, whatever the hash seed
+    ("two-imports", '<%namespace name="na" import="f"><%def name="f()">first</%def></%namespace><%namespace name="nb" import="f"><%def name="f()">second</%def></%namespace>'
+                    '<%namespace name="nc" import="g, f"><%def name="f()">third</%def><%def name="g()">g</%def></%namespace>${f()}|${g()}\n', []),
+    # a template file in a non-UTF-8 encoding, declared by its coding comment
+    ("latin1", "## -*- coding: iso-8859-1 -*-\ncaf\u00e9 cr\u00e8me ${x}\n", []),
 ]
+ENCODINGS = {"latin1": "iso-8859-1"}
 DATA = dict(x="X<1>", y="y&z", **{"n%d" % i: str(i) for i in range(1, 10)})
 
 
@@ -139,7 +145,7 @@ def run(ctx):
     try:
         for name, src, defs in TEMPLATES:
             fn = os.path.join(work, name + ".html")
-            with open(fn, "w", encoding="utf-8", newline="") as f:
+            with open(fn, "w", encoding=ENCODINGS.get(name, "utf-8"), newline="") as f:
                 f.write(src)
             md = os.path.join(work, "mods")
             builders = {
@@ -198,15 +204,15 @@ def run(ctx):
                         ctx.violation({"template": src, "path": path, "rendered": o, "expected": want}, "get_def(name).render()", tags=["c08.get_def"])
             # a fresh interpreter on the existing module file, under several hash seeds; mako-render
             seeds = ["0", "1", "2"] if tier == "quick" else [str(i) for i in range(16)]
-            if name in ("many-names", "defs", "unicode", "code") or tier != "quick":
+            if name in ("many-names", "defs", "unicode", "code", "two-imports", "latin1") or tier != "quick":
                 sub_outs, sub_codes = {}, {}
                 for seed in seeds:
                     ctx.evaluations += 1
                     npaths += 1
                     code = ("import sys, json; sys.path[:0]=['/repo']\nfrom mako.template import Template\n"
                             "d = json.loads(sys.argv[1])\n"
-                            "t1 = Template(filename=%r, module_directory=%r)\nt2 = Template(open(%r, encoding='utf-8').read())\n"
-                            "sys.stdout.buffer.write(json.dumps([t1.render_unicode(**d), t2.render_unicode(**d), t2.code]).encode('utf-8'))" % (fn, md, fn))
+                            "t1 = Template(filename=%r, module_directory=%r)\nt2 = Template(open(%r, encoding=%r).read())\n"
+                            "sys.stdout.buffer.write(json.dumps([t1.render_unicode(**d), t2.render_unicode(**d), t2.code]).encode('utf-8'))" % (fn, md, fn, ENCODINGS.get(name, "utf-8")))
                     import json
                     p = subprocess.run([sys.executable, "-c", code, json.dumps(DATA)], capture_output=True, timeout=120, env=dict(os.environ, PYTHONHASHSEED=seed))
                     try:
@@ -224,6 +230,17 @@ def run(ctx):
                     ctx.violation({"template": src}, "the generated module differs between hash seeds by more than the order of its lines", tags=["c08.hashseed-code"])
             if name in ("plain", "control"):
                 ctx.evaluations += 1
+                # get_def on an inheriting template: the def runs in the template's own context (local / parent as in a whole render)
+                lk = TemplateLookup()
+                lk.put_string("/base.html", '<%def name="title()">Base</%def>[${self.title()}]${next.body()}')
+                lk.put_string("/child.html", '<%inherit file="/base.html"/><%def name="title()">${parent.title()} > Child of ${local.uri}</%def>body')
+                whole = lk.get_template("/child.html").render()
+                try:
+                    alone = lk.get_template("/child.html").get_def("title").render()
+                except Exception as e:  # noqa
+                    alone = "raised %s: %s" % (type(e).__name__, str(e)[:80])
+                if whole != "[Base > Child of /child.html]body" or alone != "Base > Child of /child.html":
+                    ctx.violation({"whole": whole, "get_def": alone}, "get_def(name).render() on an inheriting template differs from the def inside a whole render", tags=["c08.get_def-inherit"])
                 args = [sys.executable, "-c", "import sys; sys.path[:0]=['/repo']; from mako.cmd import cmdline; cmdline()"] + sum((["--var", "%s=%s" % kv] for kv in DATA.items()), []) + [fn]
                 p = subprocess.run(args, capture_output=True, timeout=120)
                 if p.stdout.decode("utf-8") != ref:
